@@ -25,12 +25,13 @@ REQUIRED_THEOREMS = ['CfVerif.C03.' + t for t in (
     'persistent_marks_eq_device', 'ext_phase_completes', 'param_table_when_connected', 'no_extended_no_queries',
     'setup_started_once', 'setup_started_once_live_counterexample', 'log_fetcher_started_once', 'version_is_devices',
     'disconnect_unregisters', 'aborted_download_is_silent', 'stale_fetchers_do_not_interfere', 'undisconnected_fetcher_interferes',
-    'ext_disconnect_aborts', 'gen_disconnect',
+    'ext_disconnect_aborts', 'gen_disconnect', 'lookups_agree_after_any_history', 'history_before_install_irrelevant',
+    'downloaded_table_wf', 'cache_miss_is_download', 'cache_hit_installs', 'gen_toc_object',
     'gen_platform_reports_once', 'gen_type_tables', 'gen_log_reset_guard', 'gen_v2_threshold')]
 TRUSTED = ['harness/corr/c03.py extractor + correspondence', 'harness/sim/crazyflie_device.py (simulated device, link, sync session) and its Lean twin Spec/C03',
            "Python str.decode('ISO-8859-1') is a bijection bytes <-> code points < 256 (names are compared as byte strings)",
            'dict keeps insertion order and overwrites in place; struct.unpack as modelled in Base/Struct']
-ASSUMPTIONS = ['TOC cache disabled (cache behaviour is C11)',
+ASSUMPTIONS = ['what TocCache.fetch returns for a CRC is C11; here: a cached dictionary is well-formed (written from a downloaded table)',
                'a worker iteration of _ExtendedTypeFetcher.run that is in flight while the link is lost is not modelled (C02)',
                'one download per port and connection: replies of a previous session do not reach the fetcher (the link queue is per connection)',
                'replies are genuine device replies (possibly duplicated, stale, delayed); forged packets are only used in the correspondence',
@@ -427,13 +428,14 @@ class RealFetch:
     """real downloads driven from outside on ONE set of objects (stub Crazyflie, Log / Param): kind 'log' | 'param'.
     `restart()` begins a new download on the same objects (as a reconnect does)."""
 
-    def __init__(self, kind, v2):
+    def __init__(self, kind, v2, cache_dir=None):
         _quiet()
         from harness.sim import crazyflie_device as sim
         sim.install()
         from cflib.crazyflie.log import Log
         from cflib.crazyflie.param import Param
         self.kind, self.v2 = kind, v2
+        self.cache_dir = cache_dir
         self.cf = StubCF(4 if v2 else 3)
         self.done = 0
         self.port = 5 if kind == 'log' else 2
@@ -455,11 +457,11 @@ class RealFetch:
         self.workers_base = len(self.cf.workers)
         n0 = len(self.cf.sent)
         if self.kind == 'log':
-            self.owner.refresh_toc(self._finished, TocCache())
+            self.owner.refresh_toc(self._finished, TocCache(rw_cache=self.cache_dir))
             self.owner._new_packet_cb(self._pk(1, b'\x05\x00\x00'))       # the reset reply starts the fetcher
         else:
             self.owner.toc = Toc()                 # Param._connection_requested / _disconnected
-            self.owner.refresh_toc(self._finished, TocCache())
+            self.owner.refresh_toc(self._finished, TocCache(rw_cache=self.cache_dir))
         regs = [cb for (p, cb) in self.cf.cbs if p == self.port and cb not in before and isinstance(cb.__self__, TocFetcher)]
         assert len(regs) == 1
         self.fetcher = regs[0].__self__
@@ -646,6 +648,182 @@ def make_dev(rng, nlog, npar, v2, rich=False, **kw):
                                mems=[sim.Mem(0, data=bytes(16))], **kw)
 
 
+def gen_toc_history(rng, unique=True):
+    """a history of operations on one Toc object: lookups on the empty table, add_element, clear(), snapshots and direct
+    assignment of the dictionary (what TocFetcher does on a cache hit), lookups at every point.
+    -> [('add', kind, ident, data) | ('clear',) | ('snap',) | ('install', k) | ('get', g, n) | ('byid', i) | ('bycn', s) | ('dump',)]"""
+    kind = rng.choice(['log', 'param'])
+    n = rng.choice([0, 1, 2, 3, 5, 8, 13])
+    items = gen_table(rng, kind, max(n, 1), True, rich=rng.random() < 0.3)
+    from harness.sim import crazyflie_device as sim
+    ops = []
+    nsnaps = 0
+    present = []
+
+    def lookups(k):
+        for _ in range(k):
+            x = rng.random()
+            it = rng.choice(items)
+            g, nm = it.group.encode('ISO-8859-1'), it.name.encode('ISO-8859-1')
+            if x < 0.4:
+                ops.append(('byid', rng.choice([0, 1, rng.randrange(0, len(items) + 2)])))
+            elif x < 0.7:
+                ops.append(('get', g, nm))
+            else:
+                ops.append(('bycn', g + b'.' + nm))
+    lookups(rng.randrange(0, 3))                       # on the still empty table
+    for step in range(rng.randrange(2, 14)):
+        x = rng.random()
+        if x < 0.5:
+            i = rng.randrange(len(items))
+            ident = i if unique else rng.choice([i, i, rng.randrange(len(items))])
+            ops.append(('add', kind, ident, sim.item_bytes(items[i])))
+        elif x < 0.58:
+            ops.append(('clear',))
+        elif x < 0.75:
+            ops.append(('snap',))
+            nsnaps += 1
+        elif nsnaps:
+            ops.append(('install', rng.randrange(nsnaps)))
+        lookups(rng.randrange(0, 3))
+        if rng.random() < 0.3:
+            ops.append(('dump',))
+    ops.append(('dump',))
+    return ops
+
+
+class RealTocHistory:
+    """the same history on a real Toc object"""
+
+    def __init__(self):
+        _quiet()
+        from cflib.crazyflie.toc import Toc
+        self.toc = Toc()
+        self.snaps = []
+
+    def apply(self, op):
+        from cflib.crazyflie.log import LogTocElement
+        from cflib.crazyflie.param import ParamTocElement
+        if op[0] == 'add':
+            try:
+                self.toc.add_element((LogTocElement if op[1] == 'log' else ParamTocElement)(op[2], bytearray(op[3])))
+                return 'ok'
+            except Exception as e:
+                return 'err ' + exc_enum(e)
+        if op[0] == 'clear':
+            self.toc.clear()
+            return 'ok'
+        if op[0] == 'snap':
+            self.snaps.append({g: dict(m) for g, m in self.toc.toc.items()})
+            return 'ok %d' % (len(self.snaps) - 1)
+        if op[0] == 'install':
+            self.toc.toc = {g: dict(m) for g, m in self.snaps[op[1]].items()}      # TocFetcher: self.toc.toc = cache_data
+            return 'ok'
+        if op[0] == 'dump':
+            return show_toc(self.toc)
+        return real_lookup(self.toc, op[0], list(op[1:]))
+
+
+def history_line(op):
+    if op[0] == 'add':
+        return 't add %s %d %s' % (op[1], op[2], hexs(op[3]))
+    if op[0] in ('clear', 'snap'):
+        return 't ' + op[0]
+    if op[0] == 'install':
+        return 't install %d' % op[1]
+    if op[0] == 'dump':
+        return 'toc'
+    if op[0] == 'byid':
+        return 'byid %d' % op[1]
+    if op[0] == 'get':
+        return 'get %s %s' % (hexs(op[1]), hexs(op[2]))
+    return 'bycn %s' % hexs(op[1])
+
+
+def toc_history_cases(ctx):
+    """Tie B for the Toc object: random histories (incl. duplicate keys / idents) on the real object vs the model"""
+    rng = ctx.rng
+    lines, reals, marks = [], [], []
+    for k in range(60 if ctx.tier == 'quick' else 1500):
+        ops = gen_toc_history(rng, unique=rng.random() < 0.6)
+        r = RealTocHistory()
+        marks.append((len(lines), ops))
+        lines.append('t new')
+        reals.append('ok')
+        for op in ops:
+            lines.append(history_line(op))
+            reals.append(r.apply(op))
+            ctx.count('tocop:' + op[0])
+    replies = ctx.lean(DRIVER, lines)
+    for (a, ops) in marks:
+        ctx.case({'op': 'toc-history', 'ops': [o[0] for o in ops][:30]}, ('toc-history', tuple(history_line(o) for o in ops)))
+        for j in range(a, a + len(ops) + 1):
+            if replies[j] != reals[j]:
+                ctx.disagree('toc-history', {'line': lines[j][:200], 'prefix': lines[max(a, j - 8):j]}, replies[j][:300], reals[j][:300])
+                break
+
+
+def toc_object_property(toc):
+    """the property's last clause evaluated on a real Toc object against its own dictionary content: every stored element is
+    found under its (group, name); when the idents are pairwise different it is also found under its index and (dot-free
+    names) under its complete name; idents not in the table find nothing.  -> None | description"""
+    content = [(g, n, toc.toc[g][n]) for g in toc.toc for n in toc.toc[g]]
+    idents = [e.ident for (_, _, e) in content]
+    unique = len(idents) == len(set(idents))
+    for (g, n, e) in content:
+        if toc.get_element(g, n) is not e:
+            return 'get_element(%r, %r) does not return the stored element' % (g, n)
+        if unique and toc.get_element_by_id(e.ident) is not e:
+            return 'get_element_by_id(%d) does not return the element stored under (%r, %r)' % (e.ident, g, n)
+        if unique and '.' not in g and '.' not in n and (toc.get_element_by_complete_name(g + '.' + n) is not e
+                                                         or toc.get_element_id(g + '.' + n) != e.ident):
+            return 'lookup by complete name %r.%r disagrees with lookup by (group, name)' % (g, n)
+    for i in (0, 1, 2, 255, 256, 65535):
+        if i not in idents and toc.get_element_by_id(i) is not None:
+            return 'get_element_by_id(%d) returns an element although no stored element has that index' % i
+    return None
+
+
+def toc_history_search(ctx):
+    """spec twin: after EVERY step of a history (lookups on the empty table, adds, clear, installs by direct assignment) the
+    lookups on the real object agree with each other and with the dictionary"""
+    rng = ctx.rng
+    for k in range(150 if ctx.tier == 'quick' else 3000):
+        ops = gen_toc_history(rng, unique=True)
+        r = RealTocHistory()
+        for j, op in enumerate(ops):
+            r.apply(op)
+            bad = toc_object_property(r.toc)
+            ctx.count('search:toc-history-step')
+            if bad:
+                hist = [history_line(o) for o in ops[:j + 1]]
+                ctx.witness('toc-object-lookups-disagree', 'after a history of Toc operations: ' + bad,
+                            {'mode': 'toc-history', 'history': hist})
+                break
+
+
+def replay_toc_history(hist):
+    r = RealTocHistory()
+    for line in hist:
+        w = line.split(' ')
+        if w[0] == 't' and w[1] == 'add':
+            r.apply(('add', w[2], int(w[3]), bytes.fromhex(w[4]) if w[4] != '-' else b''))
+        elif w[0] == 't' and w[1] == 'install':
+            r.apply(('install', int(w[2])))
+        elif w[0] == 't':
+            r.apply((w[1],))
+        elif w[0] == 'byid':
+            r.apply(('byid', int(w[1])))
+        elif w[0] == 'get':
+            r.apply(('get',) + tuple(bytes.fromhex(x) if x != '-' else b'' for x in w[1:3]))
+        elif w[0] == 'bycn':
+            r.apply(('bycn', bytes.fromhex(w[1]) if w[1] != '-' else b''))
+        bad = toc_object_property(r.toc)
+        if bad:
+            return ('toc-object-lookups-disagree', bad, {})
+    return None
+
+
 def decoder_cases(ctx):
     rng = ctx.rng
     cases = []
@@ -694,7 +872,7 @@ class Script:
         self.desc.append(desc or line[:120])
 
 
-def fetch_session(ctx, sc, kind, v2, n, malformed, rich, disconnect=False):
+def fetch_session(ctx, sc, kind, v2, n, malformed, rich, disconnect=False, cache=False):
     """adversarial delivery schedule against one table; returns summary for counting"""
     rng = ctx.rng
     from harness.sim import crazyflie_device as sim
@@ -704,11 +882,33 @@ def fetch_session(ctx, sc, kind, v2, n, malformed, rich, disconnect=False):
     holder = {}
     stats = collections.Counter()
 
+    def cache_line():
+        import tempfile
+        if cache:
+            holder['dir'] = tempfile.mkdtemp(prefix='c03micro-')
+        return 'ok'
+    sc.add('cacheon' if cache else 'cacheoff', cache_line)
+
+    def probe():
+        """a lookup on the table holder in the middle of whatever is going on"""
+        x = rng.random()
+        if x < 0.4 or not items:
+            i = rng.choice([0, 1, max(0, n - 1), rng.randrange(0, n + 2)])
+            sc.add('byid %d' % i, lambda a=i: real_lookup(holder['r'].toc, 'byid', [a]))
+        else:
+            it = rng.choice(items)
+            g, nm = it.group.encode('ISO-8859-1'), it.name.encode('ISO-8859-1')
+            if x < 0.7:
+                sc.add('get %s %s' % (hexs(g), hexs(nm)), lambda a=g, b=nm: real_lookup(holder['r'].toc, 'get', [a, b]))
+            else:
+                sc.add('bycn %s' % hexs(g + b'.' + nm), lambda a=g + b'.' + nm: real_lookup(holder['r'].toc, 'bycn', [a]))
+        stats['probe'] += 1
+
     def download(first, abort_at):
         """one download (start .. finished | aborted by a disconnect at step `abort_at`); returns (state, pool)"""
         if first:
             def start():
-                holder['r'] = RealFetch(kind, v2)
+                holder['r'] = RealFetch(kind, v2, cache_dir=holder.get('dir'))
                 return 'ok ' + ','.join(hexs(d) for d in holder['r'].start_req)
         else:
             def start():
@@ -722,7 +922,12 @@ def fetch_session(ctx, sc, kind, v2, n, malformed, rich, disconnect=False):
         state = 'info'
         steps = 0
         limit = 4 * n + 40
+        hit = cache and not first and holder.get('cached') and n > 0
+        if rng.random() < 0.5:
+            probe()                                   # before anything arrived: the table is still empty
         while state != 'done' and steps < limit:
+            if rng.random() < 0.08:
+                probe()
             if abort_at is not None and steps == abort_at:
                 sc.add('fdisc', lambda: holder['r'].fdisc())
                 stats['disconnect'] += 1
@@ -754,7 +959,10 @@ def fetch_session(ctx, sc, kind, v2, n, malformed, rich, disconnect=False):
                 # replies, correctness is judged by model == code
                 continue
             if kindp == 'awaited':
-                if state == 'info':
+                if state == 'info' and hit:
+                    state = 'done'                    # the cached table is installed, nothing is requested
+                    stats['cache-hit'] += 1
+                elif state == 'info':
                     state = 'element' if n > 0 else 'done'
                     if n > 0:
                         pool += [d for (_, _, d) in dev.handle(port, 0, bytes([2, 0, 0]) if v2 else bytes([0, 0]))]
@@ -766,6 +974,8 @@ def fetch_session(ctx, sc, kind, v2, n, malformed, rich, disconnect=False):
                         awaited = len(pool) - 1
                     else:
                         state = 'done'
+        if state == 'done' and not malformed:
+            holder['cached'] = True
         return state, pool
 
     abort_at = rng.randrange(0, min(2 * n + 3, 40)) if disconnect else None
@@ -781,6 +991,10 @@ def fetch_session(ctx, sc, kind, v2, n, malformed, rich, disconnect=False):
         # a new download on the same objects (reconnect) must behave as from the start
         state, pool = download(False, None)
         stats['restart'] += 1
+    if cache and state == 'done' and not malformed:
+        # a later connection with the cache present: lookups on the fresh, still empty table, then the cache hit
+        sc.add('toc', lambda: show_toc(holder['r'].toc))
+        state, pool = download(False, None)
     # a few deliveries after the end (callback removed)
     for _ in range(rng.randrange(0, 3)):
         pkt = pool[rng.randrange(len(pool))]
@@ -804,6 +1018,13 @@ def fetch_session(ctx, sc, kind, v2, n, malformed, rich, disconnect=False):
             sc.add('bycn %s' % hexs(p[1]), lambda a=p[1]: real_lookup(holder['r'].toc, 'bycn', [a]))
     if kind == 'param' and state == 'done' and not malformed:
         ext_session(ctx, sc, holder, dev, items, stats)
+
+    def cleanup():
+        import shutil
+        if holder.get('dir'):
+            shutil.rmtree(holder['dir'], ignore_errors=True)
+        return 'ok'
+    sc.add('cacheoff', cleanup)
     return stats, state
 
 
@@ -918,7 +1139,8 @@ def correspond(ctx):
         plan += [('log', True, 1000, False, False), ('param', True, 700, False, True)]
     for (kind, v2, n, malformed, rich) in plan:
         start = len(sc.lines)
-        stats, state = fetch_session(ctx, sc, kind, v2, n, malformed, rich, disconnect=(n not in SIZES_QUICK or n in (2, 3, 7)) and rng.random() < 0.45)
+        stats, state = fetch_session(ctx, sc, kind, v2, n, malformed, rich, disconnect=(n not in SIZES_QUICK or n in (2, 3, 7)) and rng.random() < 0.45,
+                                     cache=rng.random() < 0.4)
         sessions.append((start, len(sc.lines), kind, v2, n, malformed, rich, stats, state))
     replies = ctx.lean(DRIVER, sc.lines)
     for (a, b, kind, v2, n, malformed, rich, stats, state) in sessions:
@@ -940,6 +1162,7 @@ def correspond(ctx):
         ctx.count('session:%s:%s' % (kind, 'v2' if v2 else 'v1'))
         ctx.case({'op': 'fetch-session', 'kind': kind, 'v2': v2, 'n': n, 'malformed': malformed, 'rich': rich, 'lines': b - a},
                  ('sess', kind, v2, n, malformed, rich, b - a) if (stats['stale'] or stats['malformed'] or n in (0, 255, 256, 257)) else None)
+    toc_history_cases(ctx)
     platform_cases(ctx)
     connection_runs(ctx)
 
@@ -1074,49 +1297,133 @@ def connection_plan(ctx):
     return plan
 
 
+class EarlyInjector:
+    """wraps a reply policy: additionally, at random exchanges from the very first one on, packets arrive that make the
+    library look parameters up while the tables are not (yet) there: the unsolicited value-updated notification (2:3
+    `01 id16 value`, current generation only) and late answers to reads / writes of an earlier session (2:1, 2:2).
+    plain_only: only parameters without the extended flag (a notification for an extended parameter during the
+    extended-type phase is taken as the answer to the query - known observation, docs/C03.md)"""
+
+    def __init__(self, base, dev, rng, p=0.2, plain_only=True):
+        self.base, self.dev, self.rng, self.p, self.plain_only = base, dev, rng, p, plain_only
+        self.injected = 0
+
+    def route(self, link, request, replies):
+        out = self.base.route(link, request, replies)
+        dev, rng = self.dev, self.rng
+        ids = [i for i, v in enumerate(dev.param_toc) if v.ctype != 'FP16' and not (self.plain_only and v.type_byte & 0x10)]
+        if ids and rng.random() < self.p:
+            i = rng.choice(ids)
+            ib = bytes([i & 0xFF, i >> 8]) if dev.v2 else bytes([i & 0xFF])
+            kinds = ['stale-read', 'stale-write'] + (['updated', 'updated'] if dev.v2 else [])
+            k = rng.choice(kinds)
+            if k == 'updated':
+                pkt = dev.param_updated(i)
+            elif k == 'stale-read':
+                pkt = (2, 1, ib + (b'\0' if dev.v2 else b'') + dev.param_value_bytes(i))
+            else:
+                pkt = (2, 2, ib + dev.param_value_bytes(i))
+            out.append((rng.randrange(0, 3), pkt))
+            self.injected += 1
+        return out
+
+
+def emit_session(ctx, s, dev, desc, lines, checks):
+    """append the model replay of one connected session (log port, param port) and what the real objects ended with"""
+    rng = ctx.rng
+    usev2 = dev.v2
+    for kind, port, toc, items in (('log', 5, s.cf.log.toc, dev.log_toc), ('param', 2, s.cf.param.toc, dev.param_toc)):
+        a = len(lines)
+        lines.append(('fstart log %d' if kind == 'log' else 'pstart %d') % (1 if usev2 else 0))
+        for ev in event_log(s, port):
+            if kind == 'log':
+                lines.append('fpkt %d %s' % (ev[1], hexs(ev[2])))
+            else:
+                lines.append('pworker' if ev[0] == 'worker' else 'ppkt %d %s' % (ev[1], hexs(ev[2])))
+        lines.append('toc')
+        b = len(lines)
+        # every lookup path on the real table as it is when `connected` fires
+        probes = []
+        for i in sorted(set([0, len(items) - 1, len(items)] + [rng.randrange(0, len(items) + 1) for _ in range(3)])):
+            if i >= 0:
+                probes.append(('byid %d' % i, real_lookup(toc, 'byid', [i])))
+        for it in rng.sample(items, min(3, len(items))):
+            g, nm = it.group.encode('ISO-8859-1'), it.name.encode('ISO-8859-1')
+            probes.append(('get %s %s' % (hexs(g), hexs(nm)), real_lookup(toc, 'get', [g, nm])))
+            probes.append(('bycn %s' % hexs(g + b'.' + nm), real_lookup(toc, 'bycn', [g + b'.' + nm])))
+        lines += [p[0] for p in probes]
+        real_sends = uniq([d for (p, c, d) in s.link.sent if p == port and c in ((0,) if kind == 'log' else (0, 3))])
+        checks.append((kind, a, b, desc, show_toc(toc), real_sends, [p[1] for p in probes]))
+
+
 def connection_runs(ctx):
     """Tie B at connection level: the real Crazyflie object against the simulated device; the packets that reached
-    ports 5 and 2 (and the extended-type worker steps) are replayed into the Lean model; tables, request sequence and
-    the moment `connected` fires must agree."""
+    ports 5 and 2 (and the extended-type worker steps) are replayed into the Lean model; tables, lookups, request
+    sequence and the moment `connected` fires must agree.  With `cache`: a first connection fills a cache directory, the
+    connection under test then finds its tables in the cache while early packets make the library look parameters up
+    before the table is installed."""
     from harness.sim import crazyflie_device as sim
     import random
+    import shutil
+    import tempfile
     rng = ctx.rng
     lines, checks = [], []
     for (v2, nl, npar, polname, nr) in connection_plan(ctx):
         dev = make_dev(rng, nl, npar, v2, rich=rng.random() < 0.3)
-        s = sim.SyncSession(dev, needs_resending=nr, policy=make_policy(random.Random(rng.getrandbits(32)), polname))
-        ok = connect_recorded(s)
-        desc = {'op': 'connect', 'v2': v2, 'nlog': nl, 'nparam': npar, 'policy': polname, 'needs_resending': nr}
-        ctx.count('connect:' + polname)
-        ctx.count('connect:' + ('v2' if v2 else 'v1'))
-        for k, v in collections.Counter(s.trace).items():
-            ctx.count('step:' + k, v)
-        if not ok:
-            ctx.disagree('connect', desc, 'model: connected after the awaited replies', 'real: not connected; events=%s' % s.events)
-            continue
-        ctx.case(desc, ('connect', v2, nl, npar, polname, nr, len(s.link.delivered)))
-        usev2 = dev.v2
-        # log port
-        a = len(lines)
-        lines.append('fstart log %d' % (1 if usev2 else 0))
-        for ev in event_log(s, 5):
-            lines.append('fpkt %d %s' % (ev[1], hexs(ev[2])))
-        lines.append('toc')
-        real_sends = uniq([d for (p, c, d) in s.link.sent if p == 5 and c == 0])
-        checks.append(('log', a, len(lines), desc, show_toc(s.cf.log.toc), real_sends))
-        # param port
-        a = len(lines)
-        lines.append('pstart %d' % (1 if usev2 else 0))
-        for ev in event_log(s, 2):
-            lines.append('pworker' if ev[0] == 'worker' else 'ppkt %d %s' % (ev[1], hexs(ev[2])))
-        lines.append('toc')
-        n_at_connect = len(s.link.sent)
-        real_sends = uniq([d for (p, c, d) in s.link.sent if p == 2 and c in (0, 3)])
-        checks.append(('param', a, len(lines), desc, show_toc(s.cf.param.toc), real_sends))
-        s.close()
+        cache = rng.random() < 0.35
+        desc = {'op': 'connect', 'v2': v2, 'nlog': nl, 'nparam': npar, 'policy': polname, 'needs_resending': nr, 'cache': cache}
+        tmp = tempfile.mkdtemp(prefix='c03conn-') if cache else None
+        try:
+            lines.append('cacheon' if cache else 'cacheoff')
+            pol = make_policy(random.Random(rng.getrandbits(32)), polname)
+            if cache:
+                first = sim.SyncSession(dev, rw_cache=tmp)
+                if not connect_recorded(first):
+                    ctx.disagree('connect', desc, 'model: connected', 'real: the cache-filling connection did not connect')
+                    continue
+                emit_session(ctx, first, dev, dict(desc, phase='fill-cache'), lines, checks)
+                same_object = rng.random() < 0.5
+                desc['same_object'] = same_object
+                pol = EarlyInjector(pol, dev, random.Random(rng.getrandbits(32)), plain_only=False)
+                if same_object:      # reconnect of the same Crazyflie object
+                    first.close()
+                    first.run(max_steps=1000)
+                    first.cfg.policy = pol
+                    first.cfg.needs_resending = nr
+                    first.trace.clear()
+                    s = first
+                    n0 = len(s.events)
+                    cut = {}
+                    s.cf.connected.add_callback(lambda *a: cut.setdefault('n', len(s.trace)))
+                    s.open()
+                    ok = s.run(until=lambda: 'connected' in s.events[n0:]) == 'until'
+                    s._trace_cut = s.trace[:cut['n']] + ['packet'] if 'n' in cut else list(s.trace)
+                else:
+                    first.close()
+                    s = sim.SyncSession(dev, needs_resending=nr, policy=pol, rw_cache=tmp)
+                    ok = connect_recorded(s)
+                ctx.count('connect:cache-hit-session')
+                ctx.count('connect:early-packets', pol.injected)
+            else:
+                s = sim.SyncSession(dev, needs_resending=nr, policy=pol)
+                ok = connect_recorded(s)
+            ctx.count('connect:' + polname)
+            ctx.count('connect:' + ('v2' if v2 else 'v1'))
+            for k, v in collections.Counter(s.trace).items():
+                ctx.count('step:' + k, v)
+            if not ok:
+                ctx.disagree('connect', desc, 'model: connected after the awaited replies', 'real: not connected; events=%s' % s.events)
+                continue
+            ctx.case(desc, ('connect', v2, nl, npar, polname, nr, cache, len(s.link.delivered)))
+            emit_session(ctx, s, dev, desc, lines, checks)
+            s.close()
+        finally:
+            if tmp:
+                shutil.rmtree(tmp, ignore_errors=True)
     replies = ctx.lean(DRIVER, lines)
-    for (kind, a, b, desc, real_toc, real_sends) in checks:
+    for (kind, a, b, desc, real_toc, real_sends, real_probes) in checks:
         rep = replies[a:b]
+        model_probes = replies[b:b + len(real_probes)]
         sends = [rep[0].split(' ')[1]]
         finished = 0
         connected_at = None
@@ -1143,6 +1450,9 @@ def connection_runs(ctx):
             ctx.disagree('connect-' + kind, desc, bad, 'driver rejected a line')
         elif rep[-1] != real_toc:
             ctx.disagree('connect-%s-table' % kind, desc, rep[-1][:400], real_toc[:400])
+        elif model_probes != real_probes:
+            j = [x != y for x, y in zip(model_probes, real_probes)].index(True)
+            ctx.disagree('connect-%s-lookup' % kind, dict(desc, lookup=lines[b + j][:120]), model_probes[j][:300], real_probes[j][:300])
         elif model_sends != real_hex:
             ctx.disagree('connect-%s-requests' % kind, desc, ','.join(model_sends)[:400], ','.join(real_hex)[:400])
         elif kind == 'log' and finished != 1:
@@ -1187,9 +1497,11 @@ def run_trial(t):
     'seed', optional 'rules': [[action, n, port, chan], ...], 'rich'} -> None | (key, what, detail)"""
     from harness.sim import crazyflie_device as sim
     import random
+    mode = t.get('mode', 'rules')
+    if mode == 'toc-history':
+        return replay_toc_history(t['history'])
     rr = random.Random(t['seed'])
     dev = make_dev(rr, t['nlog'], t['nparam'], t['v2'], rich=t.get('rich', False))
-    mode = t.get('mode', 'rules')
     if mode == 'all-ports':
         pol = sim.RandomPolicy(random.Random(t['seed'] + 1), p_dup=0.25, p_delay=0.2, p_drop=0.0, p_stale=0.3)
     elif mode == 'toc-ports-drop':
@@ -1198,6 +1510,8 @@ def run_trial(t):
         pol = sim.ReplyPolicy([sim.Rule(a, n, port=po, chan=ch) for (a, n, po, ch) in t.get('rules', [])])
     if mode == 'reconnect':
         return reconnect_trial(t, dev)
+    if mode == 'cache':
+        return cache_trial(t, dev)
     s = sim.SyncSession(dev, needs_resending=t['needs_resending'], policy=pol)
     ok = s.connect('connected', max_steps=200000 + 40 * (t['nlog'] + t['nparam']))
     bad = property_holds(s, dev) if ok else ('no-connect', 'connected never signalled', {'events': s.events})
@@ -1249,6 +1563,46 @@ def reconnect_trial(t, dev):
     return bad
 
 
+def cache_trial(t, dev):
+    """the tables are in the cache (filled by an earlier, undisturbed connection); the connection under test - a new
+    Crazyflie object or the same one reconnecting - receives early packets (unsolicited value-updated notifications, late
+    answers of the earlier session) from its first exchange on, under a duplicating / delaying network"""
+    from harness.sim import crazyflie_device as sim
+    import random
+    import shutil
+    import tempfile
+    tmp = tempfile.mkdtemp(prefix='c03cache-')
+    try:
+        first = sim.SyncSession(dev, rw_cache=tmp)
+        if not first.connect('connected', max_steps=200000):
+            return ('no-connect', 'connected never signalled (cache-filling connection)', {'events': first.events})
+        if t.get('to_full'):
+            first.run(until='fully_connected', max_steps=200000)       # parameter reads of the first session happened
+        base = sim.RandomPolicy(random.Random(t['seed'] + 1), p_dup=0.2, p_delay=0.15, p_drop=0.0, p_stale=0.2) \
+            if t.get('adversary') else sim.ReplyPolicy()
+        pol = EarlyInjector(base, dev, random.Random(t['seed'] + 2), p=t.get('p_early', 0.3), plain_only=True)
+        if t.get('same_object'):
+            first.close()
+            first.run(max_steps=1000)
+            first.cfg.policy = pol
+            s = first
+            n0 = len(s.events)
+            s.open()
+            ok = s.run(until=lambda: 'connected' in s.events[n0:], max_steps=200000) == 'until'
+        else:
+            first.close()
+            s = sim.SyncSession(dev, policy=pol, rw_cache=tmp)
+            ok = s.connect('connected', max_steps=200000)
+        hits = len([1 for (p, c, d) in s.link.sent if p in (2, 5) and c == 0]) <= 2
+        bad = property_holds(s, dev) if ok else ('no-connect', 'connected never signalled with the tables in the cache', {'events': s.events})
+        if bad:
+            bad = (bad[0], bad[1] + ' (TOC cache present, early packets: %d)' % pol.injected, dict(bad[2], cache_hit=hits))
+        s.close()
+        return bad
+    finally:
+        shutil.rmtree(tmp, ignore_errors=True)
+
+
 def corpus_trials():
     import glob
     import json
@@ -1263,7 +1617,7 @@ def corpus_trials():
 def replay(ctx, rp):
     """./check C03 --replay <file>: re-run the recorded witness on the current tree; True = it STILL FAILS"""
     t = (rp.get('witness') or {}).get('input')
-    if not isinstance(t, dict) or 'seed' not in t:
+    if not isinstance(t, dict) or ('seed' not in t and t.get('mode') != 'toc-history'):
         print('replay file has no self-contained trial (broken obligations only): run ./check C03')
         return bool(rp.get('broken'))
     bad = run_trial(t)
@@ -1299,6 +1653,17 @@ def search(ctx):
         bad = run_trial(t)
         if bad:
             ctx.witness('reconnect-' + bad[0], bad[1], t, detail=bad[2])
+    # (1c) the Toc object itself, after every step of random histories (spec twin of lookups_agree_after_any_history)
+    toc_history_search(ctx)
+    # (1d) tables installed from the cache while early packets make the library look parameters up
+    for k in range(40 if ctx.tier == 'quick' else 600):
+        t = {'v2': rng.random() < 0.6, 'nlog': rng.randrange(0, 12), 'nparam': rng.randrange(1, 14), 'needs_resending': False,
+             'mode': 'cache', 'seed': rng.getrandbits(32), 'same_object': rng.random() < 0.5, 'adversary': rng.random() < 0.5,
+             'p_early': rng.choice([0.15, 0.3, 0.6]), 'to_full': rng.random() < 0.3, 'rich': rng.random() < 0.3}
+        ctx.count('search:cache-early')
+        bad = run_trial(t)
+        if bad:
+            ctx.witness('cache-' + bad[0], bad[1], t, detail=bad[2])
     # (1b) cache-present sanity path (cache semantics proper are C11): a table cached by an earlier connection is
     # reused only for the same CRC; a foreign table whose file name merely ends with the same hex digits is not
     import os
